@@ -136,6 +136,20 @@ func onlyByteLeaves(t *Type) bool {
 	return true
 }
 
+// byteFamilyDeep: a pointer to a byte slice in every position a component can
+// occur in (depth 3). In field position the Equal template dereferences
+// pointers inline and keeps the bytes.Equal shortcut, while Compare and Hash go
+// through helper functions: the one place where the three templates take
+// structurally different routes. Part of the fixed core of both tiers.
+func byteFamilyDeep() []*Type {
+	pb := func() *Type { return Ptr(Slice(Basic("uint8"))) }
+	return []*Type{
+		Struct("S3", "local", F("A", pb())),
+		Struct("S3", "ext", F("a", pb())),
+		Slice(pb()), Array(pb()), Map(Basic("int"), pb()), Ptr(pb()),
+	}
+}
+
 // SelectUniverse: quick = the fixed core (every term of depth <= 1: every
 // constructor over every leaf; every depth-2 term over the byte leaf) +
 // nQuick seed-chosen depth-2 terms + a few depth-3; thorough = all of
@@ -150,6 +164,7 @@ func SelectUniverse(all []*Type, quick bool, seed int64, nQuick, nDeep int) *Uni
 			rest = append(rest, t)
 		}
 	}
+	core = append(core, byteFamilyDeep()...)
 	u.Core = len(core)
 	u.Types = append(u.Types, core...)
 	if quick {
@@ -170,6 +185,9 @@ func SelectUniverse(all []*Type, quick bool, seed int64, nQuick, nDeep int) *Uni
 	}
 	ex := map[string]bool{}
 	for _, t := range all {
+		ex[t.Canon()] = true
+	}
+	for _, t := range core {
 		ex[t.Canon()] = true
 	}
 	deep := RandomTypes(seed*7919+13, nDeep, 3, ex)
